@@ -593,6 +593,15 @@ func runActorViews(c *ACase) {
 		if a.GameCount >= c.Hands && betweenHands(a) {
 			break
 		}
+		// in every other history with an ante the level clock moves on right after a hand has opened: the table's level is then
+		// no longer the one the running hand is played at (the ante and blinds asked for are the running hand's)
+		if c.Ante > 0 && c.Seed%2 == 0 {
+			if tt := d.te.GetTable(); tt.State.Status == pt.TableStateStatus_TableGamePlaying && tt.State.GameState != nil &&
+				tt.State.GameState.Status.CurrentEvent == "ReadyRequested" && tt.State.BlindState.Ante == tt.State.GameState.Meta.Ante {
+				b := tt.State.BlindState
+				d.te.UpdateBlind(b.Level+1, b.Ante+5, b.Dealer, b.SB*2, b.BB*2)
+			}
+		}
 		if _, res := d.Advance(pol); res != "ok" {
 			break
 		}
